@@ -9,6 +9,7 @@ import Lessm.Model.ExprGen
 import Lessm.Model.ColorFn
 import Lessm.Model.Nest
 import Lean.Data.Json
+import Lessm.Model.Batch
 import Lessm.Spec.VarsSpec
 import Lessm.Spec.MediaSpec
 import Lessm.Model.Mixin
@@ -462,6 +463,58 @@ def fixRun (payload : String) : String :=
               (Json.mkObj [("canon", Json.bool (Nest.CanonOut out)), ("fixed", Json.bool (again == out)),
                            ("rules", Json.num out.length)]).compress
 
+namespace BatchIO
+open Lean Lessm.Batch
+
+partial def treeOfJson (j : Json) : Except String Tree := do
+  let fs ← (← j.getObjVal? "f").getArr?
+  let ds ← (← j.getObjVal? "d").getArr?
+  let files ← fs.toList.mapM (fun e => do
+    let a ← e.getArr?
+    match a.toList with
+    | [n, b, m] => pure ((← n.getStr?), (⟨← b.getStr?, ← m.getNat?⟩ : File))
+    | _ => throw "file")
+  let subs ← ds.toList.mapM (fun e => do
+    let a ← e.getArr?
+    match a.toList with
+    | [n, t] => pure ((← n.getStr?), (← treeOfJson t))
+    | _ => throw "sub")
+  pure (.mk files subs)
+
+partial def treeToJson : Tree → Json
+  | .mk files subs => Json.mkObj
+      [("f", Json.arr (files.toArray.map (fun (n, f) => Json.arr #[Json.str n, Json.str f.bytes, Json.num f.mtime]))),
+       ("d", Json.arr (subs.toArray.map (fun (n, t) => Json.arr #[Json.str n, treeToJson t])))]
+
+def run (payload : String) : String :=
+  match Json.parse payload with
+  | .error e => "bad-json " ++ e
+  | .ok j =>
+    let r : Except String String := do
+      let flj ← j.getObjVal? "fl"
+      let fl : Flags := ⟨← (← flj.getObjVal? "force").getBool?, ← (← flj.getObjVal? "dry").getBool?,
+                         ← (← flj.getObjVal? "min").getBool?, ← (← flj.getObjVal? "recurse").getBool?⟩
+      let inp ← treeOfJson (← j.getObjVal? "in")
+      let outj ← j.getObjVal? "out"
+      let out ← if outj.isNull then pure none else (some <$> treeOfJson outj)
+      let clock ← (← j.getObjVal? "clock").getNat?
+      let ccj ← (← j.getObjVal? "cc").getArr?
+      let tbl ← ccj.toList.mapM (fun e => do
+        let a ← e.getArr?
+        match a.toList with
+        | [s, c] => pure ((← s.getStr?), (← c.getStr?))
+        | _ => throw "cc")
+      let cc (src : String) : String := match tbl.find? (·.1 == src) with
+        | some (_, c) => c
+        | none => "<not-compiled>"
+      let (o, clock', log) := runDir cc fl (← (← j.getObjVal? "indir").getStr?) (← (← j.getObjVal? "outdir").getStr?) inp out clock
+      pure (Json.mkObj [("out", match o with | some t => treeToJson t | none => Json.null),
+                        ("clock", Json.num clock'), ("log", Json.arr (log.toArray.map Json.str))]).compress
+    match r with
+    | .ok s => s
+    | .error e => "bad-payload " ++ e
+end BatchIO
+
 def handle (op : String) (payload : String) : String :=
   let args := (payload.splitOn " ").filter (· ≠ "")
   match op, args with
@@ -497,6 +550,7 @@ def handle (op : String) (payload : String) : String :=
     | "c19.run", [j] => AtIO.run j
     | "c18.scan", [j] => StrIO.run j
     | "c11.fmt", [j] => PrintIO.run j
+    | "c16.run", [j] => BatchIO.run j
     | "c17.unknown", name :: rest => Builtins.callUnknown name rest
     | "c06.guard", [g] =>
         match parseGuard g with
